@@ -73,6 +73,40 @@ CHECKS = {
             "as blocked; worker death by signal is not injected; interpreter shutdown after the call is outside the property.",
             "TLA+ model of pool+barrier+shared memory model-checked with TLC (safety, liveness, single-fault enumeration) + forced replay of TLC schedules through gate hooks + TLC trace validation of hook events",
             "4/C07"),
+    "C02": ("model_checking",
+            "Islands.tla defines the islands declaratively (8-connected components of the flooded set containing one of their OWN seeded "
+            "pixels, tight boxes); TLC proves Disjoint/NoBlank/Maximal/Seeded/Cover/SeedMonotone/FilterThm on every grid of the bounded "
+            "domains (3x3 over 3-4 classes, 2x3..2x4 and 1x6 over all 6 classes incl. blank and exact ties, 3x4). Every grid of the same "
+            "domains is realised as exactly representable float images (8 variants: rms, alternating signs, zero-valued member pixels; two "
+            "seed levels) and run through the real find_islands; seeded random images (noise, blobs of both signs, NaN blocks, random "
+            "bkg/rms maps, random thresholds) run the other way; TLC (Islands_Trace) computes IslandsOf on the class grid and compares "
+            "pixel sets, boxes and masks.",
+            "rms > 0, 0 < flood <= seed; random images with a pixel within 1e-9 of a threshold are regenerated; the clause 'no reported component "
+            "originates from a failing group' is covered end-to-end by C03's island rows.",
+            "TLA+ declarative spec + TLC theorems on bounded-exhaustive grids + TLC trace validation of find_islands outputs on the same grids and on random images",
+            "4/C02"),
+    "C04": ("model_checking",
+            "FitParams.tla gives the free-parameter order and the stderr assignment declaratively; MC_FitParams models jacobian/covar_errors "
+            "as a walking machine and TLC proves it equals FreeOrder/Assign for all 4160 vary patterns of 1-2 components plus samples for 3-4 "
+            "(negative control: per-component restart violates StderrThm). Every emitted pattern and seeded random models run through the real "
+            "fitting.jacobian / lmfit_jacobian / covar_errors; TLC (FitParams_Trace) validates row identity and order, 10 ppm agreement of each "
+            "row with the central difference of the code's own model in the parameter's own units, J/errs, J.B, and the stderr <-> Fisher "
+            "diagonal map incl. fixed parameters keeping their stderr.",
+            "'true derivative' = central difference (h=1e-4) of the code's own ntwodgaussian_lmfit; sigma recomputed from the code's own Jacobian; "
+            "at least one free parameter.",
+            "TLA+/TLC model checking of the parameter-order machine + TLC trace validation of jacobian/covar_errors executions",
+            "4/C04"),
+    "C17": ("model_checking",
+            "Sexa.tla is an integer model of sexagesimal formatting/parsing with explicit carry; TLC checks field ranges, the inverse law, RA "
+            "modulo 360 and sign handling on every non-tie input of the minute/degree/hour carry windows (and that the no-carry design is "
+            "rejected). The real dec2dms/dec2hms/dec2dec/ra2dec are run on the same domain, on seeded inputs and on TLC-emitted texts and every "
+            "call is validated by TLC (Sexa_Trace). gcd/bear/translate are validated by TLC (SphereGeom_Trace) in two-limb integers at 1e-9 deg: "
+            "metric laws, exactly known great circles (meridian, over the pole, equator with RA wrap, poles, near-zero and near-antipodal), "
+            "translate loops.",
+            "exact rounding ties are not generated; bearing clauses only where the bearing is well conditioned; agreement of gcd with an "
+            "independent formula away from exactly known great circles is residue.",
+            "TLA+ integer model checked by TLC + TLC trace validation of the real formatter/parser/geometry calls",
+            "4/C17"),
 }
 
 NOT_YET = "check not built yet in this round of construction (planned, see DESIGN.md section 4)"
